@@ -40,6 +40,14 @@ SKELETONS = [
     dict(name="isotope-labelled-unit", text="N{[<][<]C([2H])([2H])C([2H])(C)[>][>]}|gauss(60,5)|[2H]", closed=True),
     dict(name="list-can-close-before-suffix", text="OC{[>][<]CC[>|5 0 1|]; [<][H][<]}|gauss(50,5)|CCF", closed=False),
     dict(name="id-zero-and-idless", text="{[][$0]NCCO[$]; [$0]F, [$]Cl[]}|gauss(100,10)|", closed=True),
+    dict(name="hypervalent-attachment-atoms", text="CS(=O){[$][$]CC[$][$]}|gauss(50,5)|S(=O)(=O)C", closed=True),
+    dict(name="phosphonate-endgroups", text="{[][$]CC[$]; [$]S(=O)C, [$]P(=O)(OC)OC[]}|gauss(50,5)|", closed=True),
+    dict(name="doubled-sign-charges", text="{[][<]CC[>]; [<][O-], [>][Cu++][]}|gauss(50,5)|", closed=True),
+    dict(name="heavy-isotope-unit", text="N{[<][<][13CH2][13CH2][>][>]}|gauss(60,5)|O", closed=True),
+    dict(name="zero-weight-chain-end", text="{[][<]CC(C)[>|0|]; [>][H], [<]F[]}|gauss(100,5)|", closed=True),
+    dict(name="zero-weight-handover-only", text="N{[<][<]CC(C)[>|0|][>]}|gauss(100,5)|O", closed=True),
+    dict(name="suffix-descriptor-after-branch", text="[H]{[>][<]CC[>][<]}|gauss(60,5)|CC(=O)[<]", closed=True),
+    dict(name="chain-stopper-unit", text="{[][$]CC[$], [$|0.15|]CC(=O)O; [$][H][]}|gauss(100,10)|", closed=True),
     dict(name="open-right-end", text="N{[<][<]CC[>][>]}|gauss(50,5)|", closed=False),
     dict(name="zero-weight-unit", text="N{[<][<]CC[>], [<|0|]CO[>|0|][>]}|gauss(50,5)|O", closed=True),
 ]
@@ -96,8 +104,19 @@ def token_reference(text):
 _REF_CACHE = {}
 
 
+_WEIGHT = re.compile(r"\|[^|\[\]]*\|")
+
+
+def token_text(token):
+    """the token as WRITTEN (the text the parser was handed, weights erased), not as the code prints it back"""
+    raw = getattr(token, "_raw_text", None)
+    if isinstance(raw, str) and raw.strip():
+        return _WEIGHT.sub("", raw.strip())
+    return str(token.generate_string(False))
+
+
 def token_ref_cached(token):
-    key = str(token.generate_string(False))
+    key = token_text(token)
     if key not in _REF_CACHE:
         _REF_CACHE[key] = token_reference(key)
     return _REF_CACHE[key]
@@ -264,12 +283,27 @@ class Oracle:
             self._check_ccw(L, B, items, pv, caller)
         else:
             fn, name, f = fr[0] if fr else (None, None, None)
-            if name == "add_repeat_unit":
-                self._check_transition_pick(f, items, pv)
-            elif fn == "system.py":
+            if fn == "system.py":
                 pass  # component pick: C14
             else:
-                self.unknown_sites = getattr(self, "unknown_sites", 0) + 1
+                # a pick that does not go through choose_compatible_weight: the listed transitions of the open descriptor.
+                # The descriptor and its object are located by content (any frame of stochastic.py), not by function name.
+                hit = None
+                for fn2, name2, f2 in fr:
+                    if fn2 != "stochastic.py":
+                        continue
+                    el = f2.f_locals.get("self")
+                    cands = [v for v in f2.f_locals.values() if isinstance(v, self.g.BondDescriptor) and getattr(v, "transitions", None) is not None]
+                    if isinstance(el, self.Stochastic) and cands:
+                        sb = f2.f_locals.get("starting_bond")
+                        if sb is None or sb not in cands:
+                            sb = cands[0]
+                        hit = (el, sb)
+                        break
+                if hit is not None:
+                    self._check_transition_pick(hit[0], hit[1], items, pv)
+                else:
+                    self.unknown_sites = getattr(self, "unknown_sites", 0) + 1
         self.choices.append(rec)
 
     def _law(self, ws):
@@ -337,6 +371,7 @@ class Oracle:
                 sb = cf.f_locals["starting_bond"]
                 P.check("C08", L is el.repeat_bonds and B is sb and sb is mm.bond_descriptors[cf.f_locals["starting_bond_idx"]],
                         "partner pick is over the repeat-unit descriptors compatible with the picked open descriptor")
+                P.check("C08", sb.transitions is None, "an open descriptor that carries a list gets its partner from the list, never from the weights")
         elif cname == "finalize_mol":
             el = cf.f_locals["self"]
             mm = cf.f_locals["my_mol"]
@@ -389,10 +424,8 @@ class Oracle:
                     P.eq("C08", x, y, "left terminal's transition list is transferred to the prefix's open descriptor")
                 P.eq("C08", bd.weight, lt.weight, "left terminal's weight is transferred to the prefix's open descriptor")
 
-    def _check_transition_pick(self, f, items, pv):
+    def _check_transition_pick(self, el, sb, items, pv):
         P = self.P
-        el = f.f_locals["self"]
-        sb = f.f_locals["starting_bond"]
         ts = list(sb.transitions)
         nall = len(el.repeat_bonds) + len(el.end_bonds)
         P.check("C08", len(pv) == len(ts) == nall and [int(x) for x in items] == list(range(nall)),
@@ -646,7 +679,9 @@ class Oracle:
                 j = i - 1
                 while j >= 0 and ev[j][0] != "mass":
                     j -= 1
-                P.check("C07", j >= 0, "start mass is measured before the draw")
+                have_mass = any(e[0] == "mass" for e in ev)
+                if have_mass:
+                    P.check("C07", j >= 0, "start mass is measured before the draw")
                 start = ev[j][1] if j >= 0 else 0.0
                 start_atoms = ev[j][2] if j >= 0 else 0
                 target = ev[i][2]
@@ -657,6 +692,7 @@ class Oracle:
                 units = []
                 cur_mass = 0.0
                 masses = []
+                left_open = []
                 while k < len(ev) and ev[k][0] != "draw":
                     e = ev[k]
                     if e[0] == "attach" and e[1]["site"] == "add_repeat_unit":
@@ -664,6 +700,7 @@ class Oracle:
                         cur_mass += frag_mass(tok)
                         units.append(tok)
                         masses.append(None)
+                        left_open.append(len(e[1].get("after_open", [1])))
                     elif e[0] == "mass" and units and masses[-1] is None and e[1] is not None:
                         # first mass measurement after the unit was added = the loop's comparison
                         masses[-1] = (e[1], cur_mass)
@@ -680,9 +717,19 @@ class Oracle:
                 for u in range(n):
                     run += frag_mass(units[u])
                     meas = masses[u]
+                    if meas is None and not have_mass:
+                        # the code does not measure through HeavyAtomMolWt (refactored): judge the stop rule on the masses of the
+                        # written tokens themselves, with a 1e-6 band for the rounding of the code's own sum
+                        if u < n - 1:
+                            P.check("C07", run <= target + 1e-6, "growth continues while the added mass does not exceed the target")
+                        elif not aborted and left_open[u] > 0:
+                            P.check("C07", run > target - 1e-6, "growth stops right after the first unit that exceeds the target")
+                        continue
                     if meas is None:
                         # loop left through the 'no open descriptor' exit: nothing compared
                         P.check("C07", u == n - 1, "a unit without comparison is the last one (no open descriptor left)")
+                        if u == n - 1 and not aborted:
+                            P.check("C07", left_open[u] == 0, "growth ends without a comparison only when no open descriptor is left")
                         continue
                     m_code, m_ref = meas
                     added = m_code - start
